@@ -69,3 +69,26 @@ pub const ALGO_NAMES: [&str; 3] = ["AES128", "AES256", "CHACHA20"];
 pub fn new_key(algo: &'static ring::aead::Algorithm, material: &[u8]) -> ring::aead::LessSafeKey {
     ring::aead::LessSafeKey::new(ring::aead::UnboundKey::new(algo, &material[..algo.key_len()]).unwrap())
 }
+
+/// Runs `f(index, item)` for every item on up to 14 threads (the mock clock, NAT flag and speed override of the code
+/// under test are thread-local, so independent scenarios can run side by side); results keep the order of `items`.
+pub fn parallel_map<T: Sync, R: Send>(items: &[T], f: impl Fn(usize, &T) -> R + Sync) -> Vec<R> {
+    let threads = std::thread::available_parallelism().map(|n| n.get()).unwrap_or(4).min(14).max(1);
+    let next = std::sync::atomic::AtomicUsize::new(0);
+    let results: std::sync::Mutex<Vec<(usize, R)>> = std::sync::Mutex::new(Vec::with_capacity(items.len()));
+    std::thread::scope(|s| {
+        for _ in 0..threads {
+            s.spawn(|| loop {
+                let i = next.fetch_add(1, std::sync::atomic::Ordering::SeqCst);
+                if i >= items.len() {
+                    break;
+                }
+                let r = f(i, &items[i]);
+                results.lock().unwrap().push((i, r));
+            });
+        }
+    });
+    let mut v = results.into_inner().unwrap();
+    v.sort_by_key(|x| x.0);
+    v.into_iter().map(|x| x.1).collect()
+}
